@@ -1,5 +1,6 @@
 """C02 - a forwarding node never loses money on an HTLC it forwards (structural part)."""
 from engine import *
+import provenance
 
 CH = 'lightning::ln::channel::'
 FC = CH + 'FundedChannel::'
@@ -373,6 +374,16 @@ def r02l(F):
 	out.append(Result('02.l', ok, ('ok:' if ok else 'wrong-commitment:') + 'holder-commitment-htlc-data-per-arm', 'check_spend_holder_transaction: the HTLC set compared with the confirmed holder commitment is chosen per arm - previous commitment: prev_holder_htlc_data (%d read(s)), current: current_holder_htlc_data (%d read(s))%s' % (len(rp), len(rc), '' if ok else ' - an HTLC that has an output in the confirmed previous commitment but was already removed from the latest one would be failed back upstream while its output is still claimable downstream'), len(rp) + len(rc), where=F.where(fn, where)))
 	return out
 
+def r02m(F):
+	"""a forwarded claim survives a restart: the downstream monitor learns the preimages of the outbound HTLCs a new holder commitment
+	removes, whichever update variant is used (same structural rule as 10.j; without it a stale-manager restart never replays the claim upstream)"""
+	import C10
+	out = []
+	for r in C10.r10j(F):
+		r.rule = '02.m'
+		out.append(r)
+	return out
+
 RULES = [
 	('02.a', 'a preimage from update_fulfill_htlc always reaches claim_funds_internal (message, chain and startup paths exist)', r02a),
 	('02.b', 'an RAA blocker is registered for every previous hop before the claim is handed upstream', r02b),
@@ -384,4 +395,6 @@ RULES = [
 	('02.k', 'HTLCs to fail / forward collected by free_holding_cell_htlcs and handle_channel_resumption are returned at every exit', r02k),
 	('02.l', 'a confirmed holder commitment is compared with its own HTLC data (previous vs current) before failing back the HTLCs it lacks', r02l),
 	('02.j', 'forwards without an outgoing channel (intercepts / phantom): outgoing amount <= incoming amount and minimum CLTV delta', r02j),
+	('02.m', 'every holder-commitment monitor update variant carries the preimages of the outbound HTLCs it removes (restart replay of forwarded claims)', r02m),
+	('02.p', 'same-name field transfer: structs carrying this property\'s quantities are filled from the same-named field or a reviewed alias (rules/provenance.py)', lambda F: provenance.for_property(F, 'C02', '02.p')),
 ]
